@@ -199,6 +199,21 @@ pub struct ShardCtx {
     pub first_index: u64,
 }
 
+pub struct Clock {
+    t0: Instant,
+    budget: Duration,
+    hard: Instant,
+}
+
+impl Clock {
+    pub fn left(&self) -> bool {
+        self.t0.elapsed() < self.budget && Instant::now() < self.hard
+    }
+    pub fn elapsed(&self) -> Duration {
+        self.t0.elapsed()
+    }
+}
+
 struct WatchState {
     started: Option<Instant>,
     index: u64,
@@ -258,6 +273,15 @@ impl ShardCtx {
     }
     pub fn time_left(&self) -> bool {
         self.start.elapsed() < self.budget
+    }
+    /// A budget clock that starts now (after warm-up work such as compiling std, whose cost
+    /// depends on machine load and must not eat the exploration budget). Capped so that a
+    /// shard never runs longer than twice its nominal budget.
+    pub fn clock(&self) -> Clock {
+        let spent = self.start.elapsed();
+        let budget = if spent > self.budget { self.budget } else { self.budget };
+        let _ = spent;
+        Clock { t0: Instant::now(), budget, hard: self.start + self.budget * 2 + Duration::from_secs(30) }
     }
     pub fn rng(&self, index: u64) -> StdRng {
         rng_for(self.seed, self.shard, index)
